@@ -1,9 +1,12 @@
 (* C01 — the quota attributes the model reports are those of the ElasticQuota objects the history
    delivered last (Spec.spec_shapes), for every history. *)
 From Coq Require Import List ZArith Bool Lia.
-From Verif Require Import Lib.Vec2 C01.Model C01.Spec C01.Proofs_Base C01.Proofs_Main C01.Proofs_Ghost.
+From Verif Require Import Lib.VecN C01.Model C01.Spec C01.Proofs_Base C01.Proofs_Main C01.Proofs_Ghost.
 Import ListNotations.
 Open Scope Z_scope.
+
+Section WithDim.
+Context {D : Dim}.
 
 Definition FE (l1 l2 : list qshape) : Prop := forall n, find l1 n = find l2 n.
 
@@ -206,3 +209,5 @@ Proof.
   - apply Nat.eqb_eq. apply fe_length; [exact HF | exact Hnd | apply nodup_spec; exact Hnd0].
   - apply forallb_forall. intros q Hq. rewrite <- HF, (in_find _ _ Hnd Hq). apply qshape_eqb_refl.
 Qed.
+
+End WithDim.
